@@ -110,7 +110,9 @@ class DirectMethod:
         if phase==1:
             self.opti = OptiWrapper(stage)
             if self._callback:
-                self.opti.callback(self._callback)
+                # Bind to this method object: the callback may have been registered on a predecessor (see inherit)
+                fun, cb_stage = self._callback
+                self.opti.callback(lambda iter : fun(iter, OcpSolution(self.opti.non_converged_solution, cb_stage)))
             if self.solver is not None:
                 if self._solver is None:
                     raise Exception("You forgot to declare a solver. Use e.g. ocp.solver('ipopt').")
@@ -172,7 +174,7 @@ class DirectMethod:
         return OcpSolution(self.opti.solve_limited(), stage)
 
     def callback(self, stage, fun):
-        self._callback = lambda iter : fun(iter, OcpSolution(self.opti.non_converged_solution, stage))
+        self._callback = (fun, stage)
 
     @property
     def debug(self):
